@@ -40,7 +40,7 @@ CODE_REWRITER = ("Crng.Tie.CodeRewriter", ["do_literal_eq", "do_not_skips", "do_
 CODE_TABLEOPS = ("Crng.Tie.CodeTableOps", ["addRoute_eq", "addBlacklist_eq", "addAggregator_eq", "addRewriter_eq", "delBlacklist_eq",
                                              "delRewriter_eq", "delAggregator_eq", "delRoute_eq", "cut_eq_eraseIdx"])
 CODE_COMPOSE = ("Crng.Tie.CodeCompose", ["dispatch_dest_sends", "rejected_no_dest_sends", "consumed_iff", "aggTrace_no_dest_send",
-                                           "sendAllRoute_dispatch", "sendFirstRoute_dispatch"])
+                                           "sendAllRoute_dispatch", "sendFirstRoute_dispatch", "destination_match_spec", "baseRoute_match_spec"])
 CODE_READDEST = ("Crng.Tie.CodeReadDest", ["readDestination_eq", "loop_eq", "defaults", "option_step", "unknown_option_rejected", "whileP_congr", "optLoop_pairs"])
 CODE_GUARDS = ("Crng.Tie.CodeGuards", ["destination_guards_iff", "grafanaNet_guards_iff"])
 CODE_AGG = ("Crng.Tie.CodeAgg", ["addMaybe_eq", "withheld_consumed", "no_dropraw_never_withholds"])
